@@ -210,4 +210,11 @@ def standin_packed_storage(tier, seed):
     r["case"] = "packed-storage"
     return r
 standin_packed_storage.prop = "C18"
-STANDINS = [standin_views, standin_numpy_digits, standin_state_histogram, standin_large_results, standin_packed_storage]
+def standin_sample_frames(tier, seed):
+    """the sampler's convenience entry points (sample / run_sweep over mixed-order sweepables; shared with C10): every row and result is labelled
+    with the assignment of the run it came from, in the documented order"""
+    from contracts.C10_standins import standin_sample_frames as f
+
+    return f(tier, seed)
+standin_sample_frames.prop = "C18"
+STANDINS = [standin_views, standin_numpy_digits, standin_state_histogram, standin_large_results, standin_packed_storage, standin_sample_frames]
